@@ -45,8 +45,8 @@ impl FromBytes for SerializedTlvStream {
         //let mut b: bytes::Bytes = r.into();
         let mut entries: Vec<TlvEntry> = vec![];
         while b.remaining() >= 2 {
-            let typ = b.get_compact_size();
-            let len = b.get_compact_size() as usize;
+            let typ = b.try_get_compact_size()?;
+            let len = b.try_get_compact_size()? as usize;
             if b.remaining() < len {
                 return Err(anyhow!(
                     "trying to advance {}, but remaining length is {}",
@@ -77,6 +77,28 @@ pub trait ProtoBuf: Buf {
             255 => self.get_u64(),
             v => v.into(),
         }
+    }
+
+    /// Like `get_compact_size`, but returns an error instead of panicking
+    /// when the buffer ends before the value does.
+    fn try_get_compact_size(&mut self) -> Result<CompactSize, anyhow::Error> {
+        if !self.has_remaining() {
+            return Err(anyhow!("unexpected end of buffer reading compact size"));
+        }
+        let needed = match self.chunk()[0] {
+            253 => 3,
+            254 => 5,
+            255 => 9,
+            _ => 1,
+        };
+        if self.remaining() < needed {
+            return Err(anyhow!(
+                "compact size needs {} bytes, but remaining length is {}",
+                needed,
+                self.remaining()
+            ));
+        }
+        Ok(self.get_compact_size())
     }
 
     fn get_tu64(&mut self) -> Result<TU64, anyhow::Error> {
@@ -170,7 +192,7 @@ impl TryFrom<Vec<u8>> for SerializedTlvStream {
             });
         }
         // Skip the length prefix
-        let l = b.get_compact_size();
+        let l = b.try_get_compact_size()?;
         let b = b.take(l as usize); // Protect against overruns
 
         Self::from_bytes(b.into_inner())
